@@ -759,23 +759,26 @@ static bool slot_zones_ok ()
 }
 
 // ------------------------------------------------------------------ iterators over a source array
-struct StreamState { const Elem *data; int len; int cur; bool derefd; };
+template <typename T> struct StreamStateT { const T *data; int len; int cur; bool derefd; };
+typedef StreamStateT<Elem> StreamState;
 
 // Input iterator: all copies share one cursor (like istream_iterator).  Every copy remembers the
 // position it believes it is at; events carry both so the spec can spot stale copies.
-struct StreamIt
+template <typename T>
+struct StreamItT
 {
   typedef std::input_iterator_tag iterator_category;
-  typedef Elem value_type;
+  typedef T value_type;
   typedef std::ptrdiff_t difference_type;
-  typedef const Elem *pointer;
-  typedef const Elem &reference;
+  typedef const T *pointer;
+  typedef const T &reference;
+  typedef StreamItT StreamIt;
 
-  StreamState *st;
+  StreamStateT<T> *st;
   int pos;      // -1: end sentinel
 
-  StreamIt () : st (0), pos (-1) { }
-  StreamIt (StreamState *s, int p) : st (s), pos (p) { }
+  StreamItT () : st (0), pos (-1) { }
+  StreamItT (StreamStateT<T> *s, int p) : st (s), pos (p) { }
 
   reference operator* () const
   {
@@ -795,7 +798,7 @@ struct StreamIt
     return *this;
   }
 
-  struct Proxy { Elem const *p; const Elem &operator* () const { return *p; } };
+  struct Proxy { T const *p; const T &operator* () const { return *p; } };
   Proxy operator++ (int)
   {
     Proxy pr = { &**this };
@@ -811,6 +814,7 @@ struct StreamIt
   }
   friend bool operator!= (const StreamIt &a, const StreamIt &b) { return ! (a == b); }
 };
+typedef StreamItT<Elem> StreamIt;
 
 // Multi-pass iterators of a chosen category over the same array.  They only report walking or
 // reading at/after the end (events 6/7 with region 9), and are fault points.
@@ -1179,7 +1183,7 @@ static void call_range (V &v, int what, long pos, It f, It l, OpResult &res)
 }
 
 // kinds: 0 input 1 forward 2 bidirectional 3 random access 4 pointer 5 move_iterator<pointer>
-//        6 iterators of another container (std::vector here)  7 forward over construct-only sources (Src)
+//        6 iterators of another container (std::vector here)  7 forward / 8 single-pass over construct-only sources (Src)
 // Copying kinds are only instantiated for copyable element flavours.
 template <typename V>
 static bool range_copy_kinds (V &v, int what, long pos, int kind, int len, OpResult &res, Bool<false>)
@@ -1213,6 +1217,18 @@ static bool op_range_family (V &v, const Op &, int what, long pos, int kind, int
       Elem *mb = g_src->data ();
       call_range (v, what, pos, std::make_move_iterator (mb), std::make_move_iterator (mb + len), res);
       return true;
+    }
+  if (kind == 8)
+    {
+      // single-pass range of construct-only sources (a mid-sequence insert buffers it in a temporary container first)
+#if CFG_VECTOR
+      return false;
+#else
+      StreamStateT<Src> st = { g_csrc->data (), len, 0, false };
+      struct Fin { OpResult &r; StreamStateT<Src> &s; ~Fin () { r.ret2 = s.cur; } } fin = { res, st };
+      call_range (v, what, pos, StreamItT<Src> (&st, 0), StreamItT<Src> (), res);
+      return true;
+#endif
     }
   if (kind == 7)
     {
@@ -1442,6 +1458,14 @@ static void construct_range (void *mem, int kind, int len, int aid, OpResult &re
       const Src *cb = g_csrc->data ();
       ARM ();
       CT (It (cb, len, 0), It (cb, len, len));
+      return;
+    }
+  if (kind == 8)
+    {
+      StreamStateT<Src> st = { g_csrc->data (), len, 0, false };
+      struct Fin { OpResult &r; StreamStateT<Src> &s; ~Fin () { r.ret2 = s.cur; } } fin = { res, st };
+      ARM ();
+      CT (StreamItT<Src> (&st, 0), StreamItT<Src> ());
       return;
     }
   if (! construct_copy_kinds<V> (mem, kind, len, aid, res, Bool<ELEM_COPYABLE> ())) res.out = "skip";
